@@ -46,7 +46,9 @@ program the same proofs accept (guard); `python3 tools/translators/tr_c19.py --s
   (`template<class A, class B> RET MPIFuture<A, B>::name(..) quals { .. }`, also for `Buffer<T>`, `Buffer<T&>`,
   `Buffer<void>`, `PseudoFuture<T>`, `PseudoFuture<void>`, `Future<T>`) are read as in-class definitions with the template
   parameters renamed to the class's own (_pull_in); the wrapped object of `FutureModel` (the one data member of its template
-  parameter type) and the `std::unique_ptr<FutureBase>` member of `Future<T>` may have any name (_canonical_member);
+  parameter type), the `std::unique_ptr<FutureBase>` member of `Future<T>`, `bool valid_` / `T data_` of the PseudoFutures and
+  the one data member of each `Buffer` are identified by their declared type and may have any name (_canonical_member);
+  the data members of `MPIFuture` itself must keep their names (`&future.req_` in mpicommunication.hh refers to them);
 * value-returning control flow in one spelling `if (c) return a; return b;`: `return c ? a : b;`, if/else of returns,
   `if (!x) return b; return a;`, in functions returning bool `return x && e;`; null / emptiness tests of one name
   (`x != nullptr`, `static_cast<bool>(x)`, `x == false`, ..) as `x` / `!x`; `if (c) { S } else DUNE_THROW(..);` and
@@ -955,6 +957,10 @@ def _mpifuture(repo):
             (r"template\s*<\s*>\s*struct\s+Buffer\s*<\s*void\s*>\s*\{", "bufferVoid", r"\bvoid\s+get\s*\(\s*\)")]
     for (rx, name, getrx), (cp, exp) in zip(bufs, ((["T"], "T"), (["T"], "T &"), ([], "void"))):
         b = _class_body(src, rx, name) + _pull_in(src, "Buffer", cp, exp)
+        # the one data member of the buffer, whatever it is called
+        b = _canonical_member(b, _DECL % {"bufferValue": r"std::unique_ptr\s*<\s*T\s*>",
+                                          "bufferRef": r"std::optional\s*<\s*std::reference_wrapper\s*<\s*T\s*>\s*>",
+                                          "bufferVoid": r"bool"}[name], "valid_" if name == "bufferVoid" else "value", name)
         out.append("def %sGet : List Micro := %s" % (name, _lean_ops(_member(b, getrx, name + "::get"))))
         out.append("def %sBool : List Micro := %s"
                    % (name, _lean_ops(_member(b, r"\boperator\s+bool\s*\(\s*\)\s*const", name + "::operator bool"))))
@@ -996,11 +1002,16 @@ def _mpifuture(repo):
     return out
 
 
+# declaration of a data member of the given type (regex text) at statement level
+_DECL = r"(?:^|(?<=[;{}:]))\s*(?:mutable\s+)?%s\s+(\w+)\s*;"
+
+
 def _canonical_member(body, decl_rx, canon, what):
-    """rename the one data member declared by `decl_rx` to the name the statement patterns use"""
+    """rename the one data member declared by `decl_rx` to the name the statement patterns use (alpha renaming of a member
+    identified by its declared type; two candidates or a clash with another use of the canonical name: error)"""
     ms = list(re.finditer(decl_rx, body))
     if len(ms) != 1:
-        raise TranslateError("%s: %d declarations of the wrapped object found" % (what, len(ms)))
+        raise TranslateError("%s: %d declarations of the member that becomes %r found" % (what, len(ms), canon))
     name = ms[0].group(1)
     if name == canon:
         return body
@@ -1016,6 +1027,8 @@ def _future(repo):
     pv = _class_body(src, r"template\s*<\s*>\s*class\s+PseudoFuture\s*<\s*void\s*>\s*\{", "PseudoFuture<void>")
     pt += _pull_in(src, "PseudoFuture", ["T"], "T")
     pv += _pull_in(src, "PseudoFuture", [], "void")
+    pt = _canonical_member(_canonical_member(pt, _DECL % "bool", "valid_", "PseudoFuture<T>"), _DECL % "T", "data_", "PseudoFuture<T>")
+    pv = _canonical_member(pv, _DECL % "bool", "valid_", "PseudoFuture<void>")
     for ns, b, getrx in (("PseudoT", pt, r"\bT\s+get\s*\(\s*\)"), ("PseudoV", pv, r"\bvoid\s+get\s*\(\s*\)")):
         out.append("namespace %s" % ns)
         for name, rx in (("valid", r"\bbool\s+valid\s*\(\s*\)\s*const"), ("wait", r"\bvoid\s+wait\s*\(\s*\)"),
@@ -1309,6 +1322,19 @@ _POS = {
          "      MPI_Request* const request = &future.req_;\n      MPI_Isend(mpidata.ptr(), mpidata.size(), mpidata.type(),\n                       dest_rank, tag, communicator, request);"),
         ("dune/common/parallel/mpicommunication.hh", "                 communicator,\n                 &future.req_);", "                 communicator,\n                 &request);"),
         ("dune/common/parallel/mpicommunication.hh", "      MPI_Ibcast(mpidata.ptr(),", "      auto& request = future.req_;\n      MPI_Ibcast(mpidata.ptr(),")],
+    "future: PseudoFuture<T> members renamed": [
+        (_F, "    bool valid_;\n    T data_;", "    bool isValid;\n    T payload;"),
+        (_F, "      valid_(false)\n    {}\n\n    template<class U>\n    PseudoFuture(U&& u) :\n      valid_(true),\n      data_(std::forward<U>(u))", "      isValid(false)\n    {}\n\n    template<class U>\n    PseudoFuture(U&& u) :\n      isValid(true),\n      payload(std::forward<U>(u))"),
+        (_F, "    void wait() {\n      if(!valid_)", "    void wait() {\n      if(!isValid)"),
+        (_F, "    bool ready() const {\n      if(!valid_)", "    bool ready() const {\n      if(!isValid)"),
+        (_F, "    T get() {\n      if(!valid_)", "    T get() {\n      if(!isValid)"),
+        (_F, "      valid_ = false;\n      return std::forward<T>(data_);", "      isValid = false;\n      return std::forward<T>(payload);"),
+        (_F, "    bool valid() const {\n      return valid_;", "    bool valid() const {\n      return isValid;")],
+    "mpifuture: Buffer<T> member renamed": [
+        (_M, "          value = std::make_unique<T>();", "          ptr_ = std::make_unique<T>();"),
+        (_M, ": value(std::make_unique<T>(std::forward<V>(t)))", ": ptr_(std::make_unique<T>(std::forward<V>(t)))"),
+        (_M, "      std::unique_ptr<T> value;\n      T get(){\n        T tmp = std::move(*value);\n        value.reset();", "      std::unique_ptr<T> ptr_;\n      T get(){\n        T tmp = std::move(*ptr_);\n        ptr_.reset();"),
+        (_M, "        return (bool)value;\n      }\n      T& operator *() const{\n        return *value;\n      }\n    };\n\n    template<class T>\n    struct Buffer<T&>", "        return (bool)ptr_;\n      }\n      T& operator *() const{\n        return *ptr_;\n      }\n    };\n\n    template<class T>\n    struct Buffer<T&>")],
     "future: valid() as conditional expression": [
         (_F, "      if(_future)\n        return _future->valid();\n      return false;", "      return _future ? _future->valid() : false;")],
     "future: valid() with inverted guard and nullptr test": [
@@ -1381,6 +1407,11 @@ _NEG = {
     "round four M4: PseudoFuture<void>::wait() loses the validity test": [
         (_F, "    void wait(){\n      if(!valid_)\n        DUNE_THROW(InvalidFutureException, \"The PseudoFuture is not valid\");\n    }", "    void wait(){\n    }")],
     "round four M1: result>1": [(_G, "if (result>0 && was_active)", "if (result>1 && was_active)")],
+    "future: PseudoFuture<T> with a second bool member used for valid()": [
+        (_F, "    bool valid_;\n    T data_;", "    bool valid_;\n    bool taken_;\n    T data_;")],
+    "future: PseudoFuture<T>::valid() returns the renamed OTHER member": [
+        (_F, "    bool valid_;\n    T data_;", "    bool ok_;\n    T data_;"),
+        (_F, "    bool valid() const {\n      return valid_;", "    bool valid() const {\n      return ok_;")],
     "future: valid() with the branches crossed": [
         (_F, "      if(_future)\n        return _future->valid();\n      return false;", "      return _future ? false : _future->valid();")],
     "future: valid() inverted guard without inverting the branches": [
